@@ -17,7 +17,7 @@ public:
     }
 
     constexpr scope_guard(scope_guard&& rhs) noexcept
-        : _func{etl::move(rhs._func)}
+        : _func{etl::forward<FuncT>(rhs._func)}
         , _policy{etl::move(rhs._policy)}
     {
     }
